@@ -16,10 +16,12 @@ ASSUMPTIONS = simlib.SIM_ASSUMPTIONS + [
 ]
 
 
-def h_events(cx, stations, station_of, H, sched, mr, constraint, n_recompute, req=None):
+def h_events(cx, stations, station_of, H, sched, mr, constraint, n_recompute, req=None, json_resume=False):
     env.install(cx)
+    if json_resume:
+        env.install_json(cx)
     A = acn()
-    snap = Snap()
+    snap = None if json_resume else Snap()
     sim_ref = [None]
     cons = None
     if constraint:
@@ -38,8 +40,11 @@ def h_events(cx, stations, station_of, H, sched, mr, constraint, n_recompute, re
         evs.append(A.EV(a, d, e_req, stations[station_of[i]][0], "sess%d" % i, b, estimated_departure=est))
     rts = [cx.int("r%d" % k, 0, H) for k in range(n_recompute)]
     calls = []
+    table = {}
     if sched == "scripted":
-        algo = Scripted(cx, stations, max_recompute=mr, positive=True, record=calls).algo
+        # json_resume: the scheduler raises in a symbolic period; the simulator is then written to JSON, read back, given its
+        # scheduler again and run to the end - the obligations below are about the completed simulation
+        algo = Scripted(cx, stations, max_recompute=mr, positive=True, record=calls, table=table, crash_at=(cx.int("crash_at", 0, H) if json_resume else None)).algo
     elif sched == "empty":
         algo = Scripted(cx, stations, max_recompute=mr, length=0, record=calls).algo
     elif sched == "uncontrolled":
@@ -52,7 +57,25 @@ def h_events(cx, stations, station_of, H, sched, mr, constraint, n_recompute, re
         algo = SortedSchedulingAlgo(first_come_first_served)
     sim = make_sim(cx, net, algo, evs, recompute_at=rts)
     sim_ref[0] = sim
-    sim.run()
+    if json_resume:
+        import warnings
+
+        try:
+            sim.run()
+        except simlib.Boom:
+            cx.tag("interrupted_and_reloaded")
+        with warnings.catch_warnings():
+            warnings.simplefilter("ignore")
+            sim = A.Simulator.from_json(sim.to_json())
+        sim.update_scheduler(Scripted(cx, stations, max_recompute=mr, positive=True, record=calls, table=table).algo)
+        sim.run()
+        net = sim.network
+        evs = [sim.ev_history["sess%d" % i] for i in range(len(evs)) if "sess%d" % i in sim.ev_history]
+        cx.check("every_session_seen", len(evs) == len(times))
+        if len(evs) != len(times):
+            return
+    else:
+        sim.run()
     cx.tag("terminated")
     hist = sim.event_history
     # --- termination state
@@ -60,6 +83,23 @@ def h_events(cx, stations, station_of, H, sched, mr, constraint, n_recompute, re
     cx.check("all_vacant", all(net.get_ev(s[0]) is None for s in stations))
     last = sym_max([d for _, d in times] + list(rts))
     cx.check("ends_one_after_last_event", eq(sim.iteration, last + 1))
+    if json_resume:
+        # no per-period recorder on a reloaded (plain) network: connection is read off the recorded rates (huge battery, every
+        # pilot positive, scheduler invoked every period: rate > 0 exactly while connected)
+        for i in range(len(evs)):
+            plugs = [e for e in hist if e.event_type == "Plugin" and e.ev is evs[i]]
+            unplugs = [e for e in hist if e.event_type == "Unplug" and e.ev is evs[i]]
+            cx.check("one_plugin[%d]" % i, len(plugs) == 1)
+            cx.check("one_unplug[%d]" % i, len(unplugs) == 1)
+        for k in range(len(hist) - 1):
+            cx.check("time_order", le(hist[k].timestamp, hist[k + 1].timestamp))
+            cx.check("precedence_order", implies(eq(hist[k].timestamp, hist[k + 1].timestamp), le(hist[k].precedence, hist[k + 1].precedence)))
+        for si, s in enumerate(stations):
+            for t in range(sim.iteration):
+                inwin = or_(*[and_(le(times[i][0], t), lt(t, times[i][1])) for i in range(len(times)) if station_of[i] == si])
+                cx.check("charging_iff_a_session_of_the_station_is_in_its_window", iff(inwin, gt(sim.charging_rates[si, t], 0)))
+        cx.observe("iteration", sim.iteration)
+        return
     cx.check("one_snapshot_per_period", [r["t"] for r in snap.rows] == list(range(sim.iteration)))
     # --- exactly one plug / unplug per session, at its own times
     for i, ev in enumerate(evs):
@@ -137,6 +177,7 @@ def jobs(tier):
             (S1, (0, 0), 3, "scripted", 1, False, 0, "sym"),
             (S2, (0, 1), 3, "scripted", None, True, 0, "sym"),
             (S2, (0, 0), 3, "uncontrolled", 1, False, 0, "sym"),
+            (S2, (0, 1), 3, "scripted", 1, False, 0, None, True),
         ]
     else:
         cfgs = []
@@ -148,12 +189,15 @@ def jobs(tier):
                     cfgs.append((st, so, 4, sched, mr, st is S2, nrec))
                     if nrec == 0 and len(set(so)) < 3 and sched != "empty":
                         cfgs.append((st, so, 3, sched, mr, st is S2, nrec, "sym"))
+                    if sched == "scripted" and mr == 1 and nrec == 0:
+                        cfgs.append((st, so, 4 if len(so) < 3 else 3, sched, mr, st is S2, nrec, None, True))
     for cfg in cfgs:
         st, so, H, sched, mr, cons, nrec = cfg[:7]
         req = cfg[7] if len(cfg) > 7 else None
-        name = "events[n=%d,sess=%s,H=%d,%s,mr=%s,cons=%s,rec=%d%s]" % (len(st), "".join(map(str, so)), H, sched, mr, int(cons), nrec, ",req=sym" if req else "")
-        js.append(Job(name, h_events, dict(stations=st, station_of=so, H=H, sched=sched, mr=mr, constraint=cons, n_recompute=nrec, req=req),
-                      functions=simlib.SIM_FUNCS, expect_tags=("terminated",), max_paths=60000, timeout=3000,
+        jr = len(cfg) > 8 and cfg[8]
+        name = "events[n=%d,sess=%s,H=%d,%s,mr=%s,cons=%s,rec=%d%s%s]" % (len(st), "".join(map(str, so)), H, sched, mr, int(cons), nrec, ",req=sym" if req else "", ",interrupt+json+resume" if jr else "")
+        js.append(Job(name, h_events, dict(stations=st, station_of=so, H=H, sched=sched, mr=mr, constraint=cons, n_recompute=nrec, req=req, json_resume=jr),
+                      functions=simlib.SIM_FUNCS, expect_tags=("terminated", "interrupted_and_reloaded") if jr else ("terminated",), max_paths=60000, timeout=3000,
                       bounds=dict(stations=len(st), sessions=len(so), horizon=H, recompute_events=nrec, scheduler=sched, max_recompute=mr, requested_energy_kWh=("(0,2] symbolic: sessions may be fully charged before they leave" if req else 50000),
                                   note="event times symbolic integers in [0,H]; every interleaving inside the bound is one path"),
                       cost=(10 ** len(so)) * (H ** 2) * (1 + nrec * H)))
